@@ -2,6 +2,7 @@ package client
 
 import (
 	"fmt"
+	"sync"
 	"time"
 
 	pkts "github.com/energomonitor/bisquitt/packets"
@@ -23,6 +24,10 @@ type sleepTransaction struct {
 	sleepDuration       time.Duration
 	state               transactionState
 	timer               *time.Timer
+	// mu guards disconnect, disconnectResendNum, state and timer: they are
+	// used by the caller of Sleep(), by the client's receive loop and by
+	// timer goroutines.
+	mu sync.Mutex
 }
 
 func newSleepTransaction(client *Client, sleepDuration time.Duration) *sleepTransaction {
@@ -62,20 +67,36 @@ func (t *sleepTransaction) Fail(e error) {
 	t.TransactionBase.Fail(e)
 }
 
+func (t *sleepTransaction) isDone() bool {
+	select {
+	case <-t.Done():
+		return true
+	default:
+		return false
+	}
+}
+
 func (t *sleepTransaction) Sleep() error {
 	state := t.client.state.Get()
 	switch state {
 	case util.StateActive:
 		duration := uint16(t.sleepDuration / time.Second)
+		// The lock is held over send() so that the reply cannot be
+		// handled before the retry timer is set up.
+		t.mu.Lock()
 		t.disconnect = pkts1.NewDisconnect(duration)
 		t.state = awaitingDisconnect
 		if err := t.client.send(t.disconnect); err != nil {
+			t.mu.Unlock()
 			t.Fail(err)
 			return err
 		}
 		t.timer = time.AfterFunc(t.retryDelay, t.resendDisconnect)
+		t.mu.Unlock()
 	case util.StateAwake:
+		t.mu.Lock()
 		t.startSleep()
+		t.mu.Unlock()
 	default:
 		return fmt.Errorf("cannot call Sleep() in %q state", state)
 	}
@@ -83,45 +104,64 @@ func (t *sleepTransaction) Sleep() error {
 }
 
 func (t *sleepTransaction) resendDisconnect() {
+	t.mu.Lock()
+	if t.isDone() || t.state != awaitingDisconnect || t.disconnect == nil {
+		// The DISCONNECT was answered (or the transaction finished)
+		// while this timer was firing.
+		t.mu.Unlock()
+		return
+	}
 	t.disconnectResendNum++
 	if t.disconnectResendNum > t.retryCount {
+		t.mu.Unlock()
 		t.log.Debug("DISCONNECT reply timeout.")
 		t.Fail(transactions.ErrNoMoreRetries)
 		return
 	}
 	t.log.Debug("DISCONNECT resend no. %d", t.disconnectResendNum)
 	if err := t.client.send(t.disconnect); err != nil {
+		t.mu.Unlock()
 		t.Fail(err)
 		return
 	}
 	t.timer = time.AfterFunc(t.retryDelay, t.resendDisconnect)
+	t.mu.Unlock()
 }
 
 func (t *sleepTransaction) Disconnect(disconnect *pkts1.Disconnect) {
-	if t.state != awaitingDisconnect {
+	t.mu.Lock()
+	defer t.mu.Unlock()
+	if t.isDone() || t.state != awaitingDisconnect || t.disconnect == nil {
 		t.log.Debug("Unexpected packet in %d: %v", t.state, disconnect)
 		return
 	}
-	t.stopTimer()
+	if t.timer != nil {
+		t.timer.Stop()
+	}
 	t.disconnect = nil
 	t.startSleep()
 }
 
 func (t *sleepTransaction) Pingresp(pingresp *pkts1.Pingresp) {
+	t.mu.Lock()
 	if t.state != awaitingPingresp {
+		t.mu.Unlock()
 		t.log.Debug("Unexpected packet in %d: %v", t.state, pingresp)
 		return
 	}
-	t.stopTimer()
+	t.mu.Unlock()
 	t.Success()
 }
 
 func (t *sleepTransaction) stopTimer() {
+	t.mu.Lock()
+	defer t.mu.Unlock()
 	if t.timer != nil {
 		t.timer.Stop()
 	}
 }
 
+// startSleep must be called with t.mu held.
 func (t *sleepTransaction) startSleep() {
 	t.log.Debug("Sleeping for %v...", t.sleepDuration)
 	t.client.setState(util.StateAsleep)
@@ -129,15 +169,22 @@ func (t *sleepTransaction) startSleep() {
 }
 
 func (t *sleepTransaction) wakeup() {
+	t.mu.Lock()
+	if t.isDone() {
+		t.mu.Unlock()
+		return
+	}
 	t.client.setState(util.StateAwake)
 	t.log.Debug("Awake")
 	t.state = awaitingPingresp
 	ping := pkts1.NewPingreq([]byte(t.client.cfg.ClientID))
 	if err := t.client.send(ping); err != nil {
+		t.mu.Unlock()
 		t.Fail(err)
 		return
 	}
 	t.timer = time.AfterFunc(maxPingrespWait, func() {
 		t.Fail(fmt.Errorf("did not receive PINGRESP in %v", maxPingrespWait))
 	})
+	t.mu.Unlock()
 }
